@@ -229,6 +229,9 @@ impl Linker {
 
         file_loader.verify_inputs_unchanged()?;
 
+        #[cfg(feature = "verif_hooks")]
+        crate::verif_hooks::point("verified")?;
+
         // Write the dependency file and inputs trace after successful linking.
         if result.is_ok() {
             if let Some(dep_file_path) = &args.dependency_file() {
@@ -264,6 +267,9 @@ impl Linker {
 
         let loaded = loaded?;
 
+        #[cfg(feature = "verif_hooks")]
+        crate::verif_hooks::point("loaded")?;
+
         let output_kind = OutputKind::new(args, file_loader);
 
         let mut output = file_writer::Output::new(args, output_kind);
@@ -288,6 +294,9 @@ impl Linker {
         // TODO: Doing this here means that we can't wrap symbols produced by the linker plugin.
         // Moving it earlier or later however requires some rethought as to how this works.
         symbol_db.apply_wrapped_symbol_overrides();
+
+        #[cfg(feature = "verif_hooks")]
+        crate::verif_hooks::point("symbols")?;
 
         let mut resolver = resolution::Resolver::default();
 
@@ -331,6 +340,9 @@ impl Linker {
             &layout_rules,
         )?;
 
+        #[cfg(feature = "verif_hooks")]
+        crate::verif_hooks::point("resolved")?;
+
         let layout = layout::compute::<P, A>(
             symbol_db,
             per_symbol_flags,
@@ -339,7 +351,13 @@ impl Linker {
             &mut output,
         )?;
 
+        #[cfg(feature = "verif_hooks")]
+        crate::verif_hooks::point("layout")?;
+
         P::write_output_file::<A>(&output, &layout)?;
+
+        #[cfg(feature = "verif_hooks")]
+        crate::verif_hooks::point("written")?;
         diff::maybe_diff()?;
 
         // We've finished linking. We consider everything from this point onwards as shutdown.
